@@ -378,8 +378,8 @@ theorem eval_macro_call (fuel : Nat) (ctx : Ctx) (name : String) (params : List 
   simp only [hm, hargs]
   rw [if_neg (by omega)]
 
-/-- … and the bindings are exactly parameter ↦ call-site value, for as many
-parameters as there are arguments. -/
+/-- … and the bindings are exactly parameter ↦ call-site value (for every parameter:
+`evalArgs_ok_params`; an invocation with fewer arguments than parameters is an error, `evalArgs_missing`). -/
 theorem evalArgs_spec (fuel : Nat) (ctx : Ctx) (params : List String) (args : Exprs) (vals : List (String × Int))
     (h : evalArgs fuel ctx params args = .ok vals) :
     vals.map (·.1) = params.take (min params.length args.toList.length) ∧
@@ -391,7 +391,7 @@ theorem evalArgs_spec (fuel : Nat) (ctx : Ctx) (params : List String) (args : Ex
     | nil => simp only [evalArgs, Except.ok.injEq] at h; subst h; simp
     | cons p ps =>
       cases args with
-      | nil => simp only [evalArgs, Except.ok.injEq] at h; subst h; simp [Exprs.toList]
+      | nil => simp [evalArgs] at h
       | cons a as =>
         rw [evalArgs] at h
         cases ha : eval f ctx a with
@@ -417,6 +417,87 @@ theorem evalArgs_spec (fuel : Nat) (ctx : Ctx) (params : List String) (args : Ex
                 | succ f' =>
                   simp only [Nat.add_sub_cancel, List.getElem_cons_succ] at h2 ⊢
                   exact eval_fuel_mono f' ctx a' _ h2 (by simp)
+
+/-- the bindings cover ALL parameters: success needs an argument for each (`fix:` 841db2a) -/
+theorem evalArgs_ok_params (fuel : Nat) (ctx : Ctx) (params : List String) (args : Exprs) (vals : List (String × Int))
+    (h : evalArgs fuel ctx params args = .ok vals) :
+    vals.map (·.1) = params ∧ params.length ≤ args.toList.length := by
+  induction fuel generalizing params args vals with
+  | zero => simp [evalArgs] at h
+  | succ f ih =>
+    cases params with
+    | nil => simp only [evalArgs, Except.ok.injEq] at h; subst h; simp
+    | cons p ps =>
+      cases args with
+      | nil => simp [evalArgs] at h
+      | cons a as =>
+        rw [evalArgs] at h
+        cases ha : eval f ctx a with
+        | error e => rw [ha] at h; simp at h
+        | ok x =>
+          rw [ha] at h; simp only at h
+          cases hb : evalArgs f ctx ps as with
+          | error e => rw [hb] at h; simp at h
+          | ok rest =>
+            rw [hb] at h; simp only [Except.ok.injEq] at h; subst h
+            obtain ⟨ih1, ih2⟩ := ih ps as rest hb
+            simp only [List.map_cons, ih1, List.length_cons, Exprs.toList]
+            exact ⟨trivial, by omega⟩
+
+/-- fewer arguments than parameters: when the arguments given evaluate (they do as arguments of the first
+`args.length` parameters), the invocation is the error naming the first parameter left without argument -/
+theorem evalArgs_missing (fuel : Nat) (ctx : Ctx) (params : List String) (args : Exprs) (vals : List (String × Int))
+    (hlt : args.toList.length < params.length)
+    (h : evalArgs fuel ctx (params.take args.toList.length) args = .ok vals) :
+    evalArgs fuel ctx params args = .error (.undefinedVariable (params[args.toList.length]'hlt)) := by
+  induction fuel generalizing params args vals with
+  | zero => simp [evalArgs] at h
+  | succ f ih =>
+    cases params with
+    | nil => simp at hlt
+    | cons p ps =>
+      cases args with
+      | nil => simp [evalArgs, Exprs.toList]
+      | cons a as =>
+        simp only [Exprs.toList, List.length_cons, List.take_succ_cons] at h hlt ⊢
+        rw [evalArgs] at h ⊢
+        cases ha : eval f ctx a with
+        | error e => rw [ha] at h; simp at h
+        | ok x =>
+          rw [ha] at h; simp only at h ⊢
+          cases hb : evalArgs f ctx (ps.take as.toList.length) as with
+          | error e => rw [hb] at h; simp at h
+          | ok rest =>
+            rw [ih ps as rest (by omega) hb]
+            simp
+
+/-- the same with the hypothesis on the arguments alone: each argument given evaluates (with fuel `f`) -/
+theorem evalArgs_missing_all (f : Nat) (ctx : Ctx) : ∀ (args : Exprs) (params : List String)
+    (hlt : args.toList.length < params.length)
+    (_hall : ∀ a ∈ args.toList, ∃ v, eval f ctx a = .ok v),
+    evalArgs (f + args.toList.length + 1) ctx params args
+      = .error (.undefinedVariable (params[args.toList.length]'hlt))
+  | .nil, params, hlt, _ => by
+    cases params with
+    | nil => simp [Exprs.toList] at hlt
+    | cons p ps => simp [evalArgs, Exprs.toList]
+  | .cons a as, params, hlt, hall => by
+    cases params with
+    | nil => simp at hlt
+    | cons p ps =>
+      simp only [Exprs.toList, List.length_cons, List.mem_cons, forall_eq_or_imp] at hall hlt ⊢
+      obtain ⟨⟨v, hv⟩, hrest⟩ := hall
+      have hv' : ∀ k, eval (f + k) ctx a = .ok v := by
+        intro k
+        induction k with
+        | zero => exact hv
+        | succ k ihk => exact eval_fuel_mono (f + k) ctx a _ ihk (by simp)
+      have := evalArgs_missing_all f ctx as ps (by omega) hrest
+      rw [show f + (as.toList.length + 1) + 1 = (f + as.toList.length + 1) + 1 by omega, evalArgs]
+      rw [show f + as.toList.length + 1 = f + (as.toList.length + 1) by omega, hv']
+      simp only
+      rw [show f + (as.toList.length + 1) = f + as.toList.length + 1 by omega, this]
+      simp
 
 theorem lookupVar_nil (v : String) : lookupVar [] v = none := rfl
 
